@@ -2442,6 +2442,11 @@ impl TieredEngine {
     fn invalidate_caches_after_bulk_load(&self, doc_ids: &[u64]) {
         for doc_id in doc_ids {
             self.cache_strategy.invalidate(*doc_id);
+            // A bulk load writes the canonical record only. A recent-write mirror entry of
+            // the same id now holds a superseded version: every reader rejects it, but in
+            // a search it still takes one of the few hot-tier candidate slots and can push
+            // a valid recent write out of the result. Drop it.
+            self.hot_tier.delete(*doc_id);
         }
 
         // L1b caches search results, so bulk loads can change k-NN results even if
